@@ -258,22 +258,30 @@ def run(case):
                 fails.append("mask changed")
             if cur.meta != cube.meta:
                 fails.append("meta changed")
-            # uncertainties of standard-deviation type
+            # uncertainties of standard-deviation type, as physical values: scaled by |k| (with k's unit) under
+            # multiplication / division, converted by to(), unchanged by sums and negation
             if case["unc"] == "std" and all(o["op"] in ("add", "radd", "sub", "rsub", "neg", "mul", "rmul", "div", "to") for o in case["ops"]):
-                exp = unc_arr.copy()
+                exp_q = unc_arr * (u.dimensionless_unscaled if cube.unit is None else cube.unit)
                 for o in case["ops"]:
                     if o["op"] in ("mul", "rmul", "div"):
                         x = operand_value(o["operand"], case)
-                        kv = np.abs(np.asarray(getattr(x, "value", x), dtype=float))
-                        exp = exp * (kv if o["op"] != "div" else 1 / kv)
+                        kv = np.abs(x) if isinstance(x, u.Quantity) else np.abs(np.asarray(x, dtype=float))
+                        exp_q = exp_q * kv if o["op"] != "div" else exp_q / kv
                     elif o["op"] == "to":
-                        pass
-                if any(o["op"] == "to" for o in case["ops"]):
-                    exp = None
+                        exp_q = exp_q.to(o["unit"])
                 if cur.uncertainty is None or not isinstance(cur.uncertainty, StdDevUncertainty):
                     fails.append(f"uncertainty became {type(cur.uncertainty).__name__}")
-                elif exp is not None and not np.allclose(cur.uncertainty.array, np.broadcast_to(exp, cur.uncertainty.array.shape), rtol=1e-12):
-                    fails.append(f"standard deviations {np.asarray(cur.uncertainty.array).ravel()[:4]}, expected the source's scaled by |k|: {np.asarray(exp).ravel()[:4]}")
+                else:
+                    got_unit = cur.uncertainty.unit if cur.uncertainty.unit is not None else \
+                        (u.dimensionless_unscaled if cur.unit is None else cur.unit)
+                    got_q = np.asarray(cur.uncertainty.array, dtype=float) * got_unit
+                    try:
+                        ok = np.allclose(got_q.to_value(exp_q.unit), np.broadcast_to(exp_q.value, got_q.shape), rtol=1e-12)
+                    except u.UnitConversionError:
+                        ok = False
+                    if not ok:
+                        fails.append(f"standard deviations {got_q.ravel()[:3]} (uncertainty unit {cur.uncertainty.unit}, cube unit {cur.unit}), "
+                                     f"expected the source's scaled / converted: {exp_q.ravel()[:3]}")
             # sums and negation leave an uncertainty of any kind exactly as it is
             if case["unc"] and all(o["op"] in ("add", "radd", "sub", "rsub", "neg") for o in case["ops"]):
                 if cur.uncertainty is None or type(cur.uncertainty) is not type(cube.uncertainty):
